@@ -626,7 +626,12 @@ func (o *operation) handle() {
 		o.request.Body = tw
 		if reqMsg.stage != stageEmpty {
 			if err := tw.prepareMessage(); err != nil {
+				// The message is already known to be unusable: answer the
+				// client; the backend is not called for a request that
+				// cannot be delivered.
 				tw.err = err
+				rw.reportError(err)
+				return
 			}
 		}
 	}
@@ -1039,13 +1044,15 @@ func (r *transformingReader) prepareMessage() error {
 		return err
 	}
 	r.buffer = r.msg.sendBuffer()
-	if r.rw.op.serverEnveloper == nil {
-		r.envRemain = 0
-		return nil
-	}
+	// The limit applies to the re-encoded form whether or not the server
+	// protocol puts it in an envelope.
 	length := r.buffer.Len()
 	if limit := int(r.rw.op.methodConf.maxMsgBufferBytes); length > limit {
 		return bufferLimitError(int64(limit))
+	}
+	if r.rw.op.serverEnveloper == nil {
+		r.envRemain = 0
+		return nil
 	}
 	// Need to prefix the buffer with an envelope
 	env := envelope{
